@@ -363,6 +363,11 @@ def p3_isolate(ctx, flavours):
                 fc = next(iter(M.muts(c[1])))[0]
                 if {fa, fc} != {M.OUT, M.IN}:
                     why.append('the two alternative removals touch the same list')
+                elif M.role(fa) != 'IN':
+                    # the neighbour can be self (self-loop).  The live iterator walks OUT then IN by one index (GET-ADJ); removing the
+                    # IN half first never moves an entry at or before the cursor, removing the OUT half first shifts the entries
+                    # the cursor is about to read and the next neighbour is skipped
+                    why.append('the first removal at the neighbour takes the OUT half: when the neighbour is self (self-loop) this shifts the list under the live iterator and a neighbour is skipped')
         # clears come after the loops
         for e in clears:
             for r in rems:
@@ -410,6 +415,24 @@ def t1_try_connect(ctx, flavours):
             if fp != want:
                 why.append('existence query reads lists %s, expected %s' % (sorted(M.role(x) for x in fp), sorted(M.role(x) for x in want)))
             te, fe = cfg.bool_edges(guard[1]['dst']['l'], guard[1]['target'])
+            if te is not None:
+                # the branch must be decided by the existence query alone: every value that can reach the switch is a
+                # boolean query of the OUT list on (self, key(other)) -- in the undirected flavours also (other, key(self))
+                sw = b['blocks'][te[0]]['term']
+                dt = strip_payload(pv.of_operand(sw['op']))
+                while isinstance(dt, tuple) and dt and dt[0] == 'unop':
+                    dt = strip_payload(dt[2])
+                alts = list(dt[1]) if isinstance(dt, tuple) and dt and dt[0] == 'join' else [dt]
+                for a in alts:
+                    a = strip_payload(a)
+                    good = False
+                    if isinstance(a, tuple) and a and a[0] == 'call' and a[1] in F.bodies and len(a[2]) == 2:
+                        aa = [strip_payload(x) for x in a[2]]
+                        fwd = aa == [P1_, key_of(P2_)]
+                        bwd = aa == [P2_, key_of(P1_)] and fl not in DIRECTED
+                        good = (fwd or bwd) and footprint(F, M, F.bodies[a[1]]) == want
+                    if not good:
+                        why.append('the connect / EdgeAlreadyExists decision also depends on %s' % pretty(a)[:90])
             if te is None:
                 why.append('query result is not branched on')
             elif ccalls:
